@@ -21,6 +21,10 @@
 (*  api = "blocks"  inversion.regularization_matrix / _reduced against     *)
 (*                  every object's own regularization_matrix.              *)
 (*                                                                         *)
+(* history: "fresh" = regularization_matrix_from on a new object; "copy" /  *)
+(* "reassign" = read from linear_obj.regularization_matrix after the object *)
+(* (or the object it was copy.copy'd from) carried a different scheme whose *)
+(* block had been evaluated -- the verdict is the same in every history.    *)
 (* chol / logdet_ok are recorded observations of np.linalg.cholesky on the *)
 (* returned matrix and of inversion.log_det_regularization_matrix_term.    *)
 (* Every tolerance below is DERIVED from the rounding of the record (never *)
@@ -213,6 +217,9 @@ Want(r) ==
 HasTable(r) == r.api \in {"exact", "fixed"} /\ ~ r.raised /\ ~ r.offlattice
 Sig(r) == r.api \o ":" \o r.scheme \o ":" \o r.mesh
           \o (IF HasTable(r) /\ ~ TableOk(r.N) THEN ":OneSidedNeighbourTable" ELSE "")
+          \* history of the linear object the matrix was read from: "fresh", or the object carried ANOTHER scheme whose block was
+          \* evaluated before the judged scheme was assigned to a copy.copy of it ("copy") or to the object itself ("reassign")
+          \o (IF r.history # "fresh" THEN ":after-" \o r.history ELSE "")
 
 TraceInit == i = 1 /\ inst = Blank /\ phase = "trace" /\ out = << >>
 TraceNext ==
